@@ -72,8 +72,22 @@ LHl == /\ IsEv("hl")
        /\ LET r == Cmd(cfg, ts, [fn |-> Ev.fn, s |-> Ev.s, i |-> Ev.i]) IN Ev.ret = r.ret /\ ts' = r.ts
        /\ UNCHANGED <<cfg, uq, pend, dbg>>
 (* after the concurrent section: everything fed has been processed; the remaining queue contents and the whole state *)
+(* everything written during the concurrent section (in the order of the write calls): well-formed packets, whole
+   messages, and per node the sequence numbers of one uninterrupted series - a packet garbled, repeated or lost by
+   overlapping flushes / write calls breaks one of the three *)
+IncS(x) == IF x = 255 THEN 1 ELSE x + 1
+WireOk(w) ==
+    IF w = <<>> THEN TRUE
+    ELSE /\ WireWellFormed(w)
+         /\ LET F == Flatten(WirePackets(w))
+                ms == [i \in 1..Len(F) |-> ParseMsg(F[i])]
+            IN \A a \in {ms[i].addr : i \in 1..Len(ms)} :
+                  LET sq == SelectSeq(ms, LAMBDA m : m.addr = a) IN
+                  \A i \in 1..(Len(sq) - 1) : sq[i].seq = 0 \/ sq[i + 1].seq = 0 \/ sq[i + 1].seq = IncS(sq[i].seq)
+
 LQuiesce == /\ IsEv("quiesce")
             /\ pend = <<>>
+            /\ WireOk(Ev.w)
             /\ Ev.qm = uq.msg /\ Ev.qe = uq.err /\ Ev.qi = uq.int
             /\ IF Ev.nost = 1 THEN TRUE ELSE Matches(cfg, ts, Ev.st)
             /\ uq' = QEmpty
